@@ -174,6 +174,41 @@ fn decode(u: &mut Unstructured, big: bool) -> Case {
     Case { kind, take, text, items, ops, bufcap }
 }
 
+/// One line far longer than any buffer a lender could use (2^16 .. 2^28 bytes, thorough: 2^30), between
+/// short lines; every line is one item in every pass.
+fn huge_line_case(j: u64, thorough: bool) -> Case {
+    // (kind, length of the long line, multi-byte filler)
+    let menu: [(u8, usize, bool); 10] = [
+        (0, (1 << 28) + 5, false),
+        (3, (1 << 24) + 3, false),
+        (5, (1 << 26) + 1, false),
+        (2, (1 << 28) + 6, true),
+        (0, (1 << 16) + 1, true),
+        (1, (1 << 27) + 9, false),
+        (4, (1 << 28) + 11, false),
+        (6, (1 << 28) + 1, false),
+        (2, (1 << 29) + 7, false),
+        (0, (1 << 30) + 3, true),
+    ];
+    let (kind, long, multibyte) = menu[j as usize % menu.len()];
+    let long = if thorough || long <= (1 << 28) + 16 { long } else { (1 << 28) + 16 };
+    let mut text: Vec<u8> = b"ab\n\ncd\r\n".to_vec();
+    if multibyte {
+        // 3-byte characters: a cut at any power of two falls inside a character
+        let ch = "\u{20ac}".as_bytes();
+        text.push(b'y');
+        while text.len() < long {
+            text.extend_from_slice(ch);
+        }
+    } else {
+        text.resize(text.len() + long, b'x');
+    }
+    text.extend_from_slice(if j % 2 == 0 { b"\r\ntail\n" } else { b"\ntail" });
+    let len = 5;
+    let ops = vec![HOp::Next(3), HOp::Rewind, HOp::Next(len + 1), HOp::Rewind, HOp::Next(4), HOp::Rewind, HOp::Next(len + 1)];
+    Case { kind, take: None, text, items: vec![], ops, bufcap: [8192usize, 1 << 20, 64][j as usize % 3] }
+}
+
 fn drive<T: ?Sized, L: RewindableIoLender<T>>(cx: &mut Ctx, l: L, oracle: &[String], show: &dyn Fn(&T) -> String, ops: &[HOp], is_take: bool) -> R {
     let mut l = Some(l);
     let mut pos = 0usize;
@@ -307,16 +342,27 @@ impl Property for C20 {
         "C20"
     }
     fn plan(&self, tier: Tier) -> Vec<Segment> {
-        vec![Segment::random("histories", tier.pick(480_000, 18_000_000), &[0], 48, 700), Segment::random("big-inputs", tier.pick(12_000, 600_000), &[1], 64, 3000)]
+        vec![Segment::random("histories", tier.pick(480_000, 18_000_000), &[0], 48, 700), Segment::random("big-inputs", tier.pick(12_000, 600_000), &[1], 64, 3000), Segment::enumerated("huge-lines", tier.pick(5, 10), &[2])]
     }
     fn rule(&self) -> &'static str {
-        "case = (lender kind in {LineLender over Cursor / BufReader<File> / small-capacity BufReader, ZstdLineLender over Cursor / File, GzipLineLender over Cursor / File, FromIntoIterator over Vec<u32> / Range / Vec<String>}, optional take(m) with m in {0,1,len-1,len,len+1,..}, input text with empty lines, CRLF/LF/mixed terminators, lone CR, multi-byte characters, lines that are not valid UTF-8 (an error item in every pass), a first line starting with a UTF-8 byte-order mark or '#', zstd frames declaring a 2^28..2^30-byte window (reference: the first pass of a fresh lender), zstd sources made of 1-3 concatenated frames and gzip sources of 1-3 members cut anywhere (for several gzip members the reference is the first pass of a fresh lender), lines longer than the BufReader, with/without final terminator, history of Next xj / Rewind with <=7 rewinds) decoded from bytes; oracle = the harness' own line splitter (resp. the item vector) truncated to m; every item of every pass compared, None exactly at the end, rewind() must be Ok. Non-trivial: a rewind after >=1 consumed item on a non-empty input; distinct = distinct hash of the decoded case."
+        "case = (lender kind in {LineLender over Cursor / BufReader<File> / small-capacity BufReader, ZstdLineLender over Cursor / File, GzipLineLender over Cursor / File, FromIntoIterator over Vec<u32> / Range / Vec<String>}, optional take(m) with m in {0,1,len-1,len,len+1,..}, input text with empty lines, CRLF/LF/mixed terminators, lone CR, multi-byte characters, lines that are not valid UTF-8 (an error item in every pass), a first line starting with a UTF-8 byte-order mark or '#', zstd frames declaring a 2^28..2^30-byte window (reference: the first pass of a fresh lender), zstd sources made of 1-3 concatenated frames and gzip sources of 1-3 members cut anywhere (for several gzip members the reference is the first pass of a fresh lender), lines longer than the BufReader, an enumerated segment with one line of 2^16..2^28 bytes (thorough: 2^30) of ASCII or 3-byte characters in every line lender, with/without final terminator, history of Next xj / Rewind with <=7 rewinds) decoded from bytes; oracle = the harness' own line splitter (resp. the item vector) truncated to m; every item of every pass compared, None exactly at the end, rewind() must be Ok. Non-trivial: a rewind after >=1 consumed item on a non-empty input; distinct = distinct hash of the decoded case."
     }
     fn run(&self, data: &[u8], cx: &mut Ctx) -> R {
         let (mode, rest) = data.split_first().unwrap_or((&0, &[]));
         let mut u = Unstructured::new(rest);
-        let c = decode(&mut u, *mode == 1);
-        cx.hash(&c);
+        let c = if *mode == 2 {
+            let mut b = [0u8; 8];
+            b[..rest.len().min(8)].copy_from_slice(&rest[..rest.len().min(8)]);
+            cx.label("huge_line");
+            huge_line_case(u64::from_le_bytes(b), cx.tier.pick(0, 1) == 1)
+        } else {
+            decode(&mut u, *mode == 1)
+        };
+        if *mode == 2 {
+            cx.hash(&("huge-line", c.kind, c.text.len()));
+        } else {
+            cx.hash(&c);
+        }
         cx.describe(|| format!("kind={} take={:?} bufcap={} ops={:?} items={:?} text({} bytes)={:?}", c.kind, c.take, c.bufcap, c.ops, &c.items[..c.items.len().min(8)], c.text.len(), trunc(&String::from_utf8_lossy(&c.text))));
         let lines = split_lines(&c.text);
         cx.label(&format!("kind:{}", c.kind));
